@@ -18,6 +18,7 @@ import (
 
 type runReq struct {
 	Threads     [][]int `json:"threads"`
+	Epilogue    []int   `json:"epilogue"` // operations run sequentially after all threads finished (reveals poisoned caches)
 	Prefix      []int   `json:"prefix"`
 	Interesting []int   `json:"interesting"`
 	MaxPoints   int     `json:"maxPoints"`
@@ -40,6 +41,7 @@ type pointOut struct {
 
 type runOut struct {
 	Results  [][]string `json:"results"`
+	Epilogue []string   `json:"epilogue,omitempty"`
 	Points   []pointOut `json:"points"`
 	Panics   []string   `json:"panics,omitempty"`
 	Diverged string     `json:"diverged,omitempty"`
@@ -119,6 +121,7 @@ func main() {
 			for _, t := range r.Threads {
 				ops.PrepareFor(all, t)
 			}
+			ops.PrepareFor(all, r.Epilogue)
 		}
 		var outs []runOut
 		for _, r := range req.Runs {
@@ -144,8 +147,12 @@ func main() {
 				}
 			}
 			c := zzrt.Run(bodies, zzrt.Config{Prefix: r.Prefix, Interesting: interesting, MaxPoints: r.MaxPoints})
+			var epi []string
+			for _, op := range r.Epilogue {
+				epi = append(epi, all[op].Run())
+			}
 			after := zzrt.HashRoots()
-			o := runOut{Results: results, Panics: c.Panics(), Diverged: c.Diverged, Deadlock: c.Deadlock, CapHit: c.CapHit, Shared: c.SharedStmts}
+			o := runOut{Results: results, Epilogue: epi, Panics: c.Panics(), Diverged: c.Diverged, Deadlock: c.Deadlock, CapHit: c.CapHit, Shared: c.SharedStmts}
 			for i := range after {
 				if after[i] != before[i] {
 					o.Changed = append(o.Changed, i)
